@@ -154,12 +154,13 @@ type c13Cfg struct {
 	parent     string // "" = no WithContext; "alive" = WithContext(parent), parent outlives Shutdown; "ended" = the parent context ends right before Shutdown is called
 	panicInact bool   // the application's inactive handler fails (panics) on every channel
 	idle       bool   // every pipeline starts with a read-idle and a write-idle handler (long periods: they never fire)
+	dupStart   bool   // the application starts listener 0 a second time (Sync on a listener whose accept loop is running: refused)
 	syncStall  bool   // channels are synchronous-write channels and one client channel has a write stalled inside its transport when Shutdown runs
 }
 
 func (g c13Cfg) String() string {
-	return fmt.Sprintf("L=%d preInject=%d preConnect=%d concInject=%d concConnect=%d closeSome=%v lclose=%d gate=%s until=%s lateAsync=%v relisten=%v acceptErr=%v failWrite=%v wrap=%v parentContext=%q inactiveHandlerPanics=%v idleHandlers=%v syncChannelsWithStalledWrite=%v",
-		g.listeners, g.preInject, g.preConnect, g.concInject, g.concConn, g.closeSome, g.lclose, g.gate, g.until, g.lateAsync, g.relisten, g.acceptErr, g.failWrite, g.wrap != nil, g.parent, g.panicInact, g.idle, g.syncStall)
+	return fmt.Sprintf("L=%d preInject=%d preConnect=%d concInject=%d concConnect=%d closeSome=%v lclose=%d gate=%s until=%s lateAsync=%v relisten=%v acceptErr=%v failWrite=%v wrap=%v parentContext=%q inactiveHandlerPanics=%v idleHandlers=%v syncChannelsWithStalledWrite=%v secondStartOfListener0=%v",
+		g.listeners, g.preInject, g.preConnect, g.concInject, g.concConn, g.closeSome, g.lclose, g.gate, g.until, g.lateAsync, g.relisten, g.acceptErr, g.failWrite, g.wrap != nil, g.parent, g.panicInact, g.idle, g.syncStall, g.dupStart)
 }
 
 var c13Gates = []string{"none", "loop-start", "in-listen", "before-accept", "child-init", "active", "client-init", "activate-during-closeall", "handshake-read-in-active", "panic-in-active", "late-activation-handshake-read"}
@@ -199,6 +200,7 @@ func runC13(c *core.Ctx) {
 			panicInact: rng.Intn(5) == 0,
 			idle:       rng.Intn(3) == 0,
 			syncStall:  rng.Intn(8) == 0,
+			dupStart:   rng.Intn(6) == 0,
 		}
 		if rng.Intn(4) == 0 {
 			cfg.lclose = rng.Intn(cfg.listeners)
@@ -427,6 +429,27 @@ func c13Trial(c *core.Ctx, id string, cfg c13Cfg) {
 	}
 	if !preGated {
 		bg.Wait() // established before Shutdown
+	}
+	if cfg.dupStart && late != 0 && cfg.gate != "loop-start" && cfg.gate != "in-listen" && cfg.gate != "before-accept" && !cfg.relisten {
+		// once listener 0 is accepting, a second Sync on the same handle is refused (an error, nothing else)
+		for dl := time.Now().Add(2 * time.Second); time.Now().Before(dl); {
+			started := false
+			for _, a := range accepting() {
+				if strings.Contains(a.URL, "l0:1000") && a.InAccept() > 0 {
+					started = true
+				}
+			}
+			if started {
+				bg.Add(1)
+				go func() {
+					defer bg.Done()
+					_ = ls[0].l.Sync()
+				}()
+				c.Count("second_start_of_a_running_listener", 1)
+				break
+			}
+			runtime.Gosched()
+		}
 	}
 	acceptErrIdx := -1
 	if cfg.acceptErr {
